@@ -2,6 +2,7 @@
 vacuity guard and encoding validation, and result records that travel back to the runner."""
 from fractions import Fraction
 import hashlib
+import os
 import time
 import traceback
 import numpy as np
@@ -278,6 +279,11 @@ def symbolic_run(scenario, cfg, tier, *, max_paths=400, obl_timeout_ms=None, val
             obs_c = scenario(Vc, None, cfg)
             conc = flatten_obs(obs_c) if obs_c is not None else []
             bad = compare_obs(twin["ev"], conc, rtol=rtol)
+            if bad and os.environ.get("SYMX_TWIN_DEBUG"):
+                with open(os.environ["SYMX_TWIN_DEBUG"], "a") as fh:
+                    fh.write("item %s env %r\n" % (cfg.get("id"), twin["env"]))
+                    for (k1, v1), (k2, v2) in zip(twin["ev"], conc):
+                        fh.write("  %s: sym=%r conc=%r\n" % (k1, v1, v2))
             if bad:
                 out["errors"].append("ENCODING-MISMATCH " + "; ".join(bad[:5]))
             else:
